@@ -2,14 +2,13 @@ SPECIFICATION Spec
 CONSTANTS
   MaxGuards = 2
   MaxActs = 1
-  Engines = 2
+  Engines = 1
   RefLevel = "small"
   Places = {"global"}
-  Derive = TRUE
+  Derive = FALSE
   Pair = FALSE
-  Threads = FALSE
-  Defects = {"shared_stack"}
-  EmitCases = FALSE
-INVARIANTS InvNoDangling
+  Threads = TRUE
+  Defects = {"shared_stack", "no_wait"}
+  EmitCases = TRUE
+INVARIANTS TypeOK Emit
 CHECK_DEADLOCK FALSE
-VIEW DesignView
